@@ -40,6 +40,18 @@ PROPS = {
     },
 }
 
+PROPS["C05"] = {
+    "engine": "h1",
+    "level": "fault_enumeration",
+    "budget": {"quick": 40, "thorough": 900},
+    "runs_per_proc": 40,
+    "technique": "deterministic simulation with crash injection: a process kill at an enumerated file-system effect boundary, reopen on the surviving directory, reference-model oracle on the recovered log, then the workload continues",
+    "level_text": "for each sampled program a fault-free run counts the file-system effect boundaries of every operation (log write, index mmap copy, file create/truncate, rename, remove, checkpoint replace); the thorough tier crashes at every one of them (quick: 6 sampled per program), reopens and judges the recovered log against the model, then continues the program on it",
+    "level_note": "process-crash model (the kernel keeps every completed write; no power loss, no torn writes); a crash inside natefinch/atomic.WriteFile is not taken (the dependency is not instrumented); programs are sampled",
+    "rule": "one evaluation = one (program, crash point) execution; distinct = distinct event-log hash; non-trivial = the crash fired, the directory was reopened and the recovered log was judged with >=5 oracle evaluations on a non-empty history",
+    "assumptions": COMMON_ASSUME + ["process-crash model as stated in the property", "for an interrupted clean only the newest segment's records are required to survive (C08/C09 judge cleaning precisely)"],
+}
+
 NOT_APPLICABLE = [
     {"property_id": pid, "reason": "check not built yet in this round (engine under construction); see DESIGN.md section 9 build order"}
     for pid in ["C%02d" % i for i in range(1, 20)] if pid not in PROPS
